@@ -13,6 +13,8 @@ RULES = {
     'C18.R4': 'extract_range copies (layer, shape) pairs of the selected range, input shape from the operator before it, current shape from the last pair',
     'C18.R3': 'variant/name agreement of builders; read_layers: marker -> variant, one entry per neuron of the preceding linear layer, weights and bias files of one index',
 }
+CONTROL_REV = '078b142'  # thorough tier: the rules must still report the defects found (and since fixed) on the original tree
+CONTROLS = [('C18.R2', 'Architecture::argmax#shape')]
 FLOORS = {'C18.R1': 8, 'C18.R2': 6, 'C18.R3': 15, 'C18.R4': 1}
 EXPLANATION = 'Guard and table rules over the Architecture builders and the npz reader.'
 DOES_NOT_DECIDE = ('the split-composition clause of extract_range (value-level), ordering of names for non-zero-padded indices (not settled by the dialect\'s '
